@@ -54,6 +54,54 @@ def known_class(sc):
     return any(n['k'] == 'link' and not is_utf8(n['text']) for n in sc.src.values())
 
 
+def run_unprivileged_twice(run, binary, base, rng, n):
+    """The sync runs twice as an unprivileged user over destination files that belong to somebody else (writable, but their
+    time cannot be set): whenever the first run exits 0 the second must do nothing."""
+    from props.c07 import UNPRIV
+    T0 = sync_e2e.T0
+    if os.geteuid() != 0 or not shutil.which('setpriv') or e2e.run_cli(binary, ['--version'], prefix=UNPRIV, timeout=30)['exit'] != 0:
+        run.count('unpriv:skipped')
+        return
+    os.chmod(base, 0o755)
+    for i in range(n):
+        root = tempfile.mkdtemp(prefix='unp_', dir=base)
+        try:
+            os.chmod(root, 0o777)
+            src, dest, owners = {'': {'k': 'dir'}}, {'': {'k': 'dir'}}, {}
+            for k in range(rng.randrange(1, 5)):
+                nm = 'f%d' % k
+                src[nm] = {'k': 'file', 'data': b'new-%d' % k, 'mtime_ns': T0 + 5 * 10**9 + k}
+                if rng.random() < 0.8:
+                    dest[nm] = {'k': 'file', 'data': b'old', 'mtime_ns': T0 - 10**9 * rng.choice([1, 50])}
+                    owners[nm] = rng.choice(['root', 'nobody'])
+            e2e.build_tree(os.path.join(root, 'src'), src)
+            e2e.build_tree(os.path.join(root, 'dest'), dest)
+            os.chmod(os.path.join(root, 'dest'), 0o777)
+            os.chown(os.path.join(root, 'dest'), 65534, 65534)
+            for nm, who in owners.items():
+                pth = os.path.join(root, 'dest', nm)
+                os.chmod(pth, 0o666)
+                if who == 'nobody':
+                    st = os.stat(pth)
+                    os.chown(pth, 65534, 65534)
+                    os.utime(pth, ns=(st.st_mtime_ns, st.st_mtime_ns))
+            args = [os.path.join(root, 'src'), os.path.join(root, 'dest'), '--dest-file-newer', 'overwrite', '--dest-file-older', 'overwrite']
+            r1 = e2e.run_cli(binary, args, prefix=UNPRIV, timeout=60)
+            run.count('unpriv:first-exit:%s' % r1['exit'])
+            run.case(('unpriv-twice', i), True)
+            if r1['exit'] != 0:
+                continue
+            snap1 = e2e.snapshot(os.path.join(root, 'dest'))
+            r2 = e2e.run_cli(binary, args, prefix=UNPRIV, timeout=60)
+            text2 = r2['stdout'] + r2['stderr']
+            if r2['exit'] != 0 or e2e.snapshot(os.path.join(root, 'dest')) != snap1 or 'Nothing to do' not in text2:
+                run.fail('C04: unprivileged run over files owned by somebody else: the first run exited 0, the second one %s' %
+                         ('exits %s' % r2['exit'] if r2['exit'] != 0 else 'did something'), {'family': 'unprivileged-twice', 'owners': owners,
+                          'first_text': (r1['stdout'] + r1['stderr'])[-500:], 'second_text': text2[-500:]})
+        finally:
+            shutil.rmtree(root, ignore_errors=True)
+
+
 def check(run):
     run.trusted = list(vlib.COMMON_TRUSTED)
     run.assumptions = ['the destination file system stores nanosecond timestamps', 'source static between the two runs']
@@ -125,6 +173,7 @@ def check(run):
         # specs with several syncs (chains A -> B, B -> C included) run twice: the second run does nothing (C04_spec_twice)
         import spec_e2e
         spec_e2e.twice_family(run, binary, base, 40 if run.tier == 'quick' else 2500, rng)
+        run_unprivileged_twice(run, binary, base, rng, 20 if run.tier == 'quick' else 600)
     finally:
         shutil.rmtree(base, ignore_errors=True)
     return run.finish(search=None)
